@@ -207,6 +207,12 @@ func c16FilesAt(r *RNG, ds []c16Decl, nfiles int, mode int) fstest.MapFS {
 		}
 		fs[fmt.Sprintf("%s/f%02d.go", c16Dirs[mode], i)] = &fstest.MapFile{Data: []byte("package app\n\n" + imports + strings.Join(b, "\n\n") + "\n")}
 	}
+	// test files anywhere in the name order: they are skipped and the order of the other files stays
+	for _, tn := range []string{"a_test.go", "f00_test.go", "f01_test.go", "f00x_test.go", "zz_test.go"} {
+		if r.Intn(3) == 0 {
+			fs[c16Dirs[mode]+"/"+tn] = &fstest.MapFile{Data: []byte("package app\n\nfunc init() {\n\tprintln(\"BAD test file\")\n}\n")}
+		}
+	}
 	if mode != 0 {
 		fs["main/main.go"] = &fstest.MapFile{Data: []byte(fmt.Sprintf("package main\n\nimport %q\n\nfunc Main() {\n\tapp.Main()\n}\n", c16Imports[mode]))}
 	}
